@@ -22,6 +22,7 @@ var Worlds = map[string]core.World{
 	"C19": lineWorld{},
 	"C12": playWorld{},
 	"C13": recWorld{},
+	"C17a": portHistWorld{},
 }
 
 // SelfTest validates the reference models against the specification's own examples and
